@@ -16,6 +16,7 @@
   very definitions; engine `roundtrip` ties them to the real crate in both directions on every run.
 -/
 import MdProofs.Lemmas.EncodeWhole
+import MdProofs.Lemmas.EncodeMemory
 namespace MdModel.Encode
 open MdModel MdModel.Dump MdModel.Gen.Layouts MdModel.Gen.LayoutsC02
 
@@ -260,5 +261,96 @@ theorem decode_encode_partial {m : DumpModel} {f : MemForm} (wf : WellFormed m f
     · rw [hth]; simp [report, Except.map, ht2]
     · rw [hmem]; simp [report, Except.map, pickMemory, hr2]
     · rw [hmi]; simp [report, Except.map, hi2]
+
+/-- non-vacuity of `WellFormed`: a model with a thread, two regions (one empty), a memory-info
+    entry and a duplicate thread-list entry earlier in the directory -/
+def exampleModel : DumpModel :=
+  { flags := 5, pad := true,
+    threads := [⟨7, 1, 2, 3, 4096, 8192, [1, 2, 3], [9, 9]⟩],
+    modules := [], memory := [⟨4096, [10, 11, 12, 13]⟩, ⟨100, []⟩], memInfo := [⟨1, 2, 3, 4, 5, 6, 7⟩],
+    threadNames := [], unloaded := [], exception := none, sysInfo := none, extra := [(3, [0, 0])] }
+
+example : WellFormed exampleModel .mem ∧ WellFormed exampleModel .mem64 := by
+  constructor <;>
+  · refine ⟨by decide, by decide, ?_, ?_, ?_, ?_⟩
+    · intro t ht
+      simp only [exampleModel, List.mem_singleton] at ht
+      subst ht
+      exact ⟨by decide, by decide, by decide, by decide, by decide, by decide⟩
+    · intro r hr
+      simp only [exampleModel, List.mem_cons, List.not_mem_nil, or_false] at hr
+      rcases hr with rfl | rfl <;> (unfold RegionFits; decide)
+    · intro i hi
+      simp only [exampleModel, List.mem_singleton] at hi
+      subst hi
+      exact ⟨by decide, by decide, by decide, by decide, by decide, by decide, by decide⟩
+    · intro x hx
+      simp only [exampleModel, List.mem_singleton] at hx
+      subst hx
+      decide
+
+/-! ## 4. "byte-identical memory at every address of every region" -/
+
+/-- **C02.4 `memory_bytes_exact`** — for every well-formed model, either byte order, either list
+    form: take any region `r` of the list the reader reports (`pre ++ r :: post`) whose last address
+    is at most 2^64-2 (see `top_region_unreachable`) and which shares no address with another
+    region (overlaps are C08's subject: the table keeps one of them). Then EVERY address
+    `r.base + j` of it reads back, through `memory_at_address` (C08's range table) and
+    `get_memory_at_address::<u8>`, exactly the byte `r.bytes[j]` the model holds. -/
+theorem memory_bytes_exact {m : DumpModel} {f : MemForm} (wf : WellFormed m f) (e : Endian)
+    (pre post : List MRegion) (r : MRegion) (hm : (report m e f).memory = .ok (pre ++ r :: post))
+    (hfit : r.base + r.bytes.length ≤ U64MAX) (hiso : ∀ x ∈ pre ++ post, Apart r x)
+    (j : Nat) (hj : j < r.bytes.length) :
+    ∃ rep rs, decode (encode m e f) = .ok rep ∧ rep.memory = .ok rs ∧
+      memoryByteAt rs (r.base + j) = some r.bytes[j] := by
+  obtain ⟨rep, h1, _, _, _, h2, _⟩ := decode_encode_partial wf e
+  refine ⟨rep, pre ++ r :: post, h1, by rw [h2, hm], ?_⟩
+  rw [memoryByteAt_exact pre post r j hj hfit hiso]
+  simp [hj]
+
+/-- the lookup on its own, for any region list (what the theorem above instantiates) -/
+theorem memory_lookup_exact (pre post : List MRegion) (r : MRegion) (j : Nat) (hj : j < r.bytes.length)
+    (hfit : r.base + r.bytes.length ≤ U64MAX) (hiso : ∀ x ∈ pre ++ post, Apart r x) :
+    memoryByteAt (pre ++ r :: post) (r.base + j) = r.bytes[j]? :=
+  memoryByteAt_exact pre post r j hj hfit hiso
+
+/-- **the hypothesis `hfit` excludes exactly the known finding**: a region that ends exactly at
+    2^64 (`base + len = 2^64`, every address of it a valid u64) is in the reported list but NO
+    address can be read back — `memory_range()` is `None` for it. (KNOWN-FINDING
+    C02-region-ending-at-2^64; the engine reproduces it on the real reader.) -/
+theorem top_region_unreachable (r : MRegion) (h : r.base + r.bytes.length > U64MAX) (a : Nat) :
+    memoryByteAt [r] a = none := by
+  unfold memoryByteAt
+  cases hget : RangeMap.get (regionTable [r]) a with
+  | none => rfl
+  | some v =>
+    exfalso
+    obtain ⟨rg, hmem, _, _⟩ := RangeMap.get_sound _ a v hget
+    simp only [List.zipIdx_cons, List.zipIdx_nil, List.map_cons, List.map_nil, List.mem_singleton, Prod.mk.injEq] at hmem
+    have hnone : RangeMap.mkRange r.base r.bytes.length = none := by
+      unfold RangeMap.mkRange
+      by_cases h0 : r.bytes.length = 0
+      · rw [if_pos h0]
+      · rw [if_neg h0, if_pos h]
+    rw [hnone] at hmem
+    exact absurd hmem.1 (by simp)
+
+example : memoryByteAt [⟨18446744073709551615, [226]⟩] 18446744073709551615 = none :=
+  top_region_unreachable _ (by decide) _
+
+/-! ## 5. "The same model written little-endian or big-endian parses to the same result" -/
+
+/-- **C02.5 `endian_agnostic_partial`** — the two byte orders of one model decode to the same flags,
+    threads, memory and memory-info (the fields `decode_encode_partial` covers). For the remaining
+    fields see the FULL STATEMENT at `decode_encode_partial`; an ELF debug identifier is BY
+    DEFINITION the build id read as a GUID in the dump's byte order (`debugId`), so that one
+    derived field is the documented exception (notes/C02.md). -/
+theorem endian_agnostic_partial {m : DumpModel} {f : MemForm} (wf : WellFormed m f) :
+    ∃ rl rb, decode (encode m .little f) = .ok rl ∧ decode (encode m .big f) = .ok rb ∧
+      rl.endian = .little ∧ rb.endian = .big ∧ rl.flags = rb.flags ∧ rl.threads = rb.threads ∧
+      rl.memory = rb.memory ∧ rl.memInfo = rb.memInfo := by
+  obtain ⟨rl, h1, h2, h3, h4, h5, h6⟩ := decode_encode_partial wf .little
+  obtain ⟨rb, g1, g2, g3, g4, g5, g6⟩ := decode_encode_partial wf .big
+  exact ⟨rl, rb, h1, g1, h2, g2, by rw [h3, g3], by rw [h4, g4]; rfl, by rw [h5, g5]; rfl, by rw [h6, g6]; rfl⟩
 
 end MdModel.Encode
